@@ -392,6 +392,8 @@ func (g *rgen) ignPath(locs [][]any) []any {
 		if len(p) > 1 {
 			p = p[:len(p)-1]
 		}
+	case 3: // trailing wildcard: the children of the named node (nothing, if it is a scalar)
+		p = append(p, abs{"t": "w", "v": 0})
 	}
 	return p
 }
